@@ -36,10 +36,11 @@ VARIABLES
   sendErrs, recvErrs,     \* number of recorded errors
   sender, receiver,       \* "none" | "alive" | "dead" ; sender may also be "lastone" (exits after the next message)
   failIn,     \* -1: sends succeed; n >= 0: the Send after n more successful ones fails
-  handed      \* history: ids of operations handed to Q and accepted
+  handed,     \* history: ids of operations handed to Q and accepted
+  acked       \* history: ids whose terminal result the application acknowledged (AckResult removes results from the queue)
 
 cvars == <<cfg, conn, sending, sendq, sent, lost, pend, pendElec, pendParams, results, sendErrs, recvErrs,
-           sender, receiver, failIn, handed>>
+           sender, receiver, failIn, handed, acked>>
 
 EmptyFn      == [x \in {} |-> TRUE]
 Put(f, k, v) == [x \in (DOMAIN f) \cup {k} |-> IF x = k THEN v ELSE f[x]]
@@ -50,17 +51,17 @@ NoCfg == [fib |-> FALSE, elected |-> FALSE, elec |-> <<0, 0>>, params |-> FALSE]
 CInit ==
   /\ cfg = NoCfg /\ conn = "none" /\ sending = FALSE /\ sendq = <<>> /\ sent = <<>> /\ lost = <<>>
   /\ pend = EmptyFn /\ pendElec = FALSE /\ pendParams = FALSE /\ results = <<>>
-  /\ sendErrs = 0 /\ recvErrs = 0 /\ sender = "none" /\ receiver = "none" /\ failIn = -1 /\ handed = {}
+  /\ sendErrs = 0 /\ recvErrs = 0 /\ sender = "none" /\ receiver = "none" /\ failIn = -1 /\ handed = {} /\ acked = {}
 
 CNew(c) ==
   /\ cfg' = c /\ conn' = "none" /\ sending' = FALSE /\ sendq' = <<>> /\ sent' = <<>> /\ lost' = <<>>
   /\ pend' = EmptyFn /\ pendElec' = FALSE /\ pendParams' = FALSE /\ results' = <<>>
-  /\ sendErrs' = 0 /\ recvErrs' = 0 /\ sender' = "none" /\ receiver' = "none" /\ failIn' = -1 /\ handed' = {}
+  /\ sendErrs' = 0 /\ recvErrs' = 0 /\ sender' = "none" /\ receiver' = "none" /\ failIn' = -1 /\ handed' = {} /\ acked' = {}
 
 CConnect ==
   /\ conn \in {"none", "closed"}
   /\ conn' = "up" /\ sender' = "alive" /\ receiver' = "alive"
-  /\ UNCHANGED <<cfg, sending, sendq, sent, lost, pend, pendElec, pendParams, results, sendErrs, recvErrs, failIn, handed>>
+  /\ UNCHANGED <<cfg, sending, sendq, sent, lost, pend, pendElec, pendParams, results, sendErrs, recvErrs, failIn, handed, acked>>
 
 (* ---- handing a message to the sender ---- *)
 \* state components after trying to put message m on the stream
@@ -115,14 +116,14 @@ SetQ(Q) ==
 CQ(m) ==
   /\ conn # "closed"
   /\ SetQ(QApply(QS, m))
-  /\ UNCHANGED <<cfg, conn, sending, results>>
+  /\ UNCHANGED <<cfg, conn, sending, results, acked>>
 
 \* A burst of Q calls while the stream's Send is stuck and then fails: the first message fails, the
 \* sender exits, the others are never sent - and every Q call must still return (C14)
 CBurst(ms) ==
   /\ conn = "up" /\ sending
   /\ SetQ(QApplyAll([QS EXCEPT !.xs = [@ EXCEPT !.failIn = IF QS.xs.sender = "alive" THEN 0 ELSE @]], ms))
-  /\ UNCHANGED <<cfg, conn, sending, results>>
+  /\ UNCHANGED <<cfg, conn, sending, results, acked>>
 
 ParamsMsg == [k |-> "params"]
 ElecMsg(id) == [k |-> "elec", id |-> id]
@@ -136,7 +137,7 @@ CStart ==
      /\ receiver' = S.receiver /\ recvErrs' = S.recvErrs
      /\ pendParams' = (pendParams \/ cfg.params) /\ pendElec' = (pendElec \/ cfg.elected)
   /\ sending' = TRUE /\ sendq' = <<>>
-  /\ UNCHANGED <<cfg, conn, pend, results, handed>>
+  /\ UNCHANGED <<cfg, conn, pend, results, handed, acked>>
 
 (* ---- the receiver ---- *)
 Terminal(st) == st \in {"FAILED", "FIB", "FIB_FAILED"} \/ (st = "RIB" /\ ~cfg.fib)
@@ -174,23 +175,32 @@ CDeliver(r) ==
             /\ recvErrs' = IF d.err THEN recvErrs + 1 ELSE recvErrs
             /\ receiver' = IF d.err THEN "dead" ELSE receiver
             /\ UNCHANGED <<pendElec, pendParams>>
-  /\ UNCHANGED <<cfg, conn, sending, sendq, sent, lost, sendErrs, sender, failIn, handed>>
+  /\ UNCHANGED <<cfg, conn, sending, sendq, sent, lost, sendErrs, sender, failIn, handed, acked>>
 
 CRecvFail ==
   /\ receiver = "alive"
   /\ recvErrs' = recvErrs + 1 /\ receiver' = "dead"
-  /\ UNCHANGED <<cfg, conn, sending, sendq, sent, lost, pend, pendElec, pendParams, results, sendErrs, sender, failIn, handed>>
+  /\ UNCHANGED <<cfg, conn, sending, sendq, sent, lost, pend, pendElec, pendParams, results, sendErrs, sender, failIn, handed, acked>>
 
 \* clean end of the stream: no error on the receive side; the next Send fails with io.EOF (as gRPC's
 \* SendMsg does on a stream the server has ended), the sender records it and exits
 CRecvEOF ==
   /\ receiver = "alive"
   /\ receiver' = "dead" /\ sender' = IF sender = "alive" THEN "lastone" ELSE sender
-  /\ UNCHANGED <<cfg, conn, sending, sendq, sent, lost, pend, pendElec, pendParams, results, sendErrs, recvErrs, failIn, handed>>
+  /\ UNCHANGED <<cfg, conn, sending, sendq, sent, lost, pend, pendElec, pendParams, results, sendErrs, recvErrs, failIn, handed, acked>>
 
 CSetSendFail(n) ==
   /\ failIn' = n
-  /\ UNCHANGED <<cfg, conn, sending, sendq, sent, lost, pend, pendElec, pendParams, results, sendErrs, recvErrs, sender, receiver, handed>>
+  /\ UNCHANGED <<cfg, conn, sending, sendq, sent, lost, pend, pendElec, pendParams, results, sendErrs, recvErrs, sender, receiver, handed, acked>>
+
+(* ---- AckResult(id): every result carrying that operation id leaves the result queue ---- *)
+HasResultFor(id) == \E i \in DOMAIN results : results[i].k = "op" /\ results[i].id = id
+CAck(id) ==
+  /\ HasResultFor(id)
+  /\ results' = SelectSeq(results, LAMBDA r : ~(r.k = "op" /\ r.id = id))
+  /\ acked' = IF \E i \in DOMAIN results : results[i].k = "op" /\ results[i].id = id /\ Terminal(results[i].st) /\ results[i].typ # ""
+               THEN acked \cup {id} ELSE acked
+  /\ UNCHANGED <<cfg, conn, sending, sendq, sent, lost, pend, pendElec, pendParams, sendErrs, recvErrs, sender, receiver, failIn, handed>>
 
 (* ---- AwaitConverged ---- *)
 Converged == sendq = <<>> /\ pend = EmptyFn /\ ~pendElec /\ ~pendParams
@@ -200,12 +210,12 @@ AwaitResult == IF sendErrs + recvErrs > 0 THEN "err" ELSE IF Converged THEN "ok"
 CClose ==
   /\ conn = "up"
   /\ conn' = "closed" /\ sender' = "dead" /\ receiver' = "dead"
-  /\ UNCHANGED <<cfg, sending, sendq, sent, lost, pend, pendElec, pendParams, results, sendErrs, recvErrs, failIn, handed>>
+  /\ UNCHANGED <<cfg, sending, sendq, sent, lost, pend, pendElec, pendParams, results, sendErrs, recvErrs, failIn, handed, acked>>
 
 CReset ==
   /\ conn' = "closed" /\ sender' = "dead" /\ receiver' = "dead" /\ sending' = FALSE
   /\ sendq' = <<>> /\ pend' = EmptyFn /\ pendElec' = FALSE /\ pendParams' = FALSE /\ results' = <<>>
-  /\ sendErrs' = 0 /\ recvErrs' = 0 /\ sent' = <<>> /\ lost' = <<>> /\ failIn' = -1 /\ handed' = {}
+  /\ sendErrs' = 0 /\ recvErrs' = 0 /\ sent' = <<>> /\ lost' = <<>> /\ failIn' = -1 /\ handed' = {} /\ acked' = {}
   /\ UNCHANGED cfg
 
 -----------------------------------------------------------------------------
@@ -213,7 +223,7 @@ CReset ==
 ResultIds(st) == {results[i].id : i \in {j \in DOMAIN results : results[j].k = "op" /\ results[j].st = st}}
 TermIds == {results[i].id : i \in {j \in DOMAIN results : results[j].k = "op" /\ Terminal(results[j].st) /\ results[j].typ # ""}}
 \* every operation handed over is pending or has a terminal result, never both
-Conservation == handed = DOMAIN pend \cup TermIds /\ DOMAIN pend \cap TermIds = {}
+Conservation == handed = DOMAIN pend \cup TermIds \cup acked /\ DOMAIN pend \cap (TermIds \cup acked) = {}
 \* no operation is completed twice
 NeverTwice ==
   \A i, j \in DOMAIN results :
